@@ -218,6 +218,40 @@ func canonOutputs(raw string) string {
 	return "[" + strings.Join(parts, ",") + "]"
 }
 
+// pageAt fetches the single page that starts at offset off.
+func pageAt(api *API, params map[string]interface{}, off int) ([]string, int, int, string) {
+	p := map[string]interface{}{"offset": off}
+	for k, v := range params {
+		p[k] = v
+	}
+	res, rerr, err := api.Call("get-transactions", p)
+	if err != nil {
+		return nil, 0, 0, "harness: " + err.Error()
+	}
+	if rerr != nil {
+		if strings.Contains(strings.ToLower(rerr.Message), "not found") {
+			return nil, 0, 0, ""
+		}
+		return nil, 0, 0, fmt.Sprintf("get-transactions %v failed: %s", p, rerr.Message)
+	}
+	var r struct {
+		Actions []struct {
+			TxID string `json:"txid"`
+			H    int64  `json:"height"`
+		} `json:"actions"`
+		Count      int `json:"count"`
+		NextOffset int `json:"nextoffset"`
+	}
+	if err := json.Unmarshal(res, &r); err != nil {
+		return nil, 0, 0, "harness: " + err.Error()
+	}
+	var keys []string
+	for _, a := range r.Actions {
+		keys = append(keys, fmt.Sprintf("%s@%d", a.TxID, a.H))
+	}
+	return keys, r.Count, r.NextOffset, ""
+}
+
 func pageAll(api *API, params map[string]interface{}) ([]string, int, string) {
 	var seen []string
 	count := -1
@@ -377,6 +411,33 @@ func checkPaging(n *Node, st *Stats, rt *rapid.T) string {
 		}
 		if a.n > 50 {
 			st.Add("paged_address_queries_over_50_actions", 1)
+		}
+		// any offset, not only the ones nextoffset hands out: the page that starts at o is the slice
+		// [o, o+page) of the full listing, and nextoffset continues right after it
+		if i < 4 && a.n > 3 {
+			full, count, msg := pageAll(api, map[string]interface{}{"address": faStr})
+			if msg != "" {
+				return msg
+			}
+			for k := 0; k < 3; k++ {
+				o := rapid.IntRange(1, len(full)-1).Draw(rt, "pageOffset")
+				got, cnt, next, msg := pageAt(api, map[string]interface{}{"address": faStr}, o)
+				queries++
+				if msg != "" {
+					return msg
+				}
+				end := o + len(got)
+				if end > len(full) || strings.Join(got, ",") != strings.Join(full[o:end], ",") || (len(got) == 0 && o < len(full)) {
+					return fmt.Sprintf("address %s… offset %d: the page is not the slice [%d,%d) of the full listing (%d actions): got %v", a.k[:12], o, o, end, len(full), trunc(strings.Join(got, ","), 200))
+				}
+				if cnt != count {
+					return fmt.Sprintf("address %s… offset %d: count=%d, the listing from 0 said %d", a.k[:12], o, cnt, count)
+				}
+				if (end < len(full)) != (next != 0) || (next != 0 && next != end) {
+					return fmt.Sprintf("address %s… offset %d: page of %d actions, %d in total, but nextoffset=%d", a.k[:12], o, len(got), len(full), next)
+				}
+			}
+			st.Add("paging_random_offsets", 3)
 		}
 	}
 	// by entry hash and by height: sampled
